@@ -12,7 +12,8 @@ Definition nonempty {A} (l : list A) := match l with [] => false | _ => true end
 
 Inductive scan_res :=
 | Done (tok : list byte) (hard : bool) (rest : list byte)
-| NeedMore (e : esc) (acc : list byte) (inarg : bool) (eb : bool).
+| NeedMore (e : esc) (acc : list byte) (inarg : bool) (eb : bool)
+| Fail.                                        (* a quoted string that runs over the end of its line *)
 
 Definition is_blank (c : byte) : bool := (c =? 32) || (c =? 9).
 
@@ -31,7 +32,9 @@ Fixpoint scan (e : esc) (acc : list byte) (ia eb : bool) (buf : list byte) : sca
   | [] => NeedMore e acc ia eb
   | c :: buf' =>
       match e with
-      | EQuote q => if c =? q then scan ENone acc true false buf' else scan e (acc ++ [c]) true false buf'
+      | EQuote q => if c =? q then scan ENone acc true false buf'
+                    else if c =? 10 then Fail
+                    else scan e (acc ++ [c]) true false buf'
       | ESlash => scan ENone (acc ++ [c]) true (is_blank c) buf'
       | ENone =>
           if is_quote c then scan (EQuote c) acc true false buf'
@@ -53,6 +56,7 @@ Fixpoint refill (e : esc) (acc : list byte) (ia eb : bool) (chunks : list (list 
   | c :: cs => match scan e acc ia eb c with
                | Done t h rest => Ok (Some (t, h, rest, cs))
                | NeedMore e' acc' ia' eb' => refill e' acc' ia' eb' cs
+               | Fail => Err
                end
   end.
 
@@ -60,6 +64,7 @@ Definition next (pending : list byte) (chunks : list (list byte)) :=
   match scan ENone [] false false pending with
   | Done t h rest => Ok (Some (t, h, rest, chunks))
   | NeedMore e acc ia eb => refill e acc ia eb chunks
+  | Fail => Err
   end.
 
 (* the same reader over the whole input as one flat byte string *)
@@ -70,6 +75,7 @@ Definition flat_next (data : list byte) : res (option (list byte * bool * list b
                          | EQuote _ => Err
                          | _ => if ia then Ok (Some (acc, false, [])) else Ok None
                          end
+  | Fail => Err
   end.
 
 (* iterate to the end of input *)
